@@ -17,7 +17,7 @@ use std::path::{Path, PathBuf};
 use duke::tree::class::ClassFile;
 use fbh::gal::*;
 use fbh::prng::Rng;
-use fbh::report::{guarded, Report};
+use fbh::report::{crumb, guarded, Report};
 use fbh::Ctx;
 use rec::*;
 
@@ -62,26 +62,27 @@ fn keep_attr(gov: &[(&str, &str)], m: &Mask, name: &str, raw: bool) -> bool {
 }
 
 fn project_code(full: &Ev, cm: &Mask) -> Ev {
-	let Ev::Code { max_stack, max_locals, insns, last_label, exc, es } = full else { unreachable!() };
+	let Ev::Code { max_stack, max_locals, insns, last_label, exc, exc_rows, es } = full else { unreachable!() };
 	let frames = has(cm, "stack_map_table");
 	Ev::Code {
 		max_stack: *max_stack, max_locals: *max_locals,
 		insns: insns.iter().map(|i| Insn { label: i.label, frame: if frames { i.frame.clone() } else { None }, text: i.text.clone() }).collect(),
-		last_label: *last_label, exc: exc.clone(),
+		last_label: *last_label, exc: exc.clone(), exc_rows: exc_rows.clone(),
 		es: es.iter().filter_map(|e| match e {
 			Ev::Attr { name, raw, .. } => if keep_attr(&CODE_GOV, cm, name, raw.is_some()) { Some(e.clone()) } else { None },
-			Ev::Deferred { slot, items, .. } => {
+			Ev::Deferred { slot, items, rows, .. } => {
 				// an entry reaches the visitor iff the visitor is interested in the attribute kind it comes from
 				let wanted = |k: u8| match k { 0 => has(cm, "line_number_table"), 1 => has(cm, "local_variable_table"), _ => has(cm, "local_variable_type_table") };
 				let kept: Vec<(u8, String)> = items.iter().filter(|(k, _)| wanted(*k)).cloned().collect();
+				let rows: Vec<RowN> = if rows.len() == items.len() { items.iter().zip(rows).filter(|((k, _), _)| wanted(*k)).map(|(_, r)| r.clone()).collect() } else { vec![] };
 				let any_flag = if *slot == "line_number_table" { wanted(0) } else { wanted(1) || wanted(2) };
 				let all_flags = if *slot == "line_number_table" { wanted(0) } else { wanted(1) && wanted(2) };
 				if !any_flag { None }
 				else if all_flags { Some(e.clone()) }
-				else if kept.len() == items.len() && !items.is_empty() { Some(Ev::Deferred { slot, items: kept, optional: false }) }
+				else if kept.len() == items.len() && !items.is_empty() { Some(Ev::Deferred { slot, items: kept, optional: false, rows }) }
 				// nothing of the wanted kind in the full table: the attribute of that kind is absent (no visit) or empty (visit of an empty table)
-				else if kept.is_empty() { Some(Ev::Deferred { slot, items: kept, optional: true }) }
-				else { Some(Ev::Deferred { slot, items: kept, optional: false }) }
+				else if kept.is_empty() { Some(Ev::Deferred { slot, items: kept, optional: true, rows }) }
+				else { Some(Ev::Deferred { slot, items: kept, optional: false, rows }) }
 			}
 			_ => Some(e.clone()),
 		}).collect(),
@@ -132,8 +133,8 @@ fn project_class(full: &Option<Vec<Ev>>, d: &VDesc) -> Option<Vec<Ev>> {
 /// the end of the code may carry a label in the full read that the partial read had no reason to create
 fn ev_matches(got: &Ev, want: &Ev) -> bool {
 	match (got, want) {
-		(Ev::Code { max_stack: a, max_locals: b, insns: i, last_label: l, exc: x, es: e },
-		 Ev::Code { max_stack: a2, max_locals: b2, insns: i2, last_label: l2, exc: x2, es: e2 }) =>
+		(Ev::Code { max_stack: a, max_locals: b, insns: i, last_label: l, exc: x, es: e, .. },
+		 Ev::Code { max_stack: a2, max_locals: b2, insns: i2, last_label: l2, exc: x2, es: e2, .. }) =>
 			a == a2 && b == b2 && x == x2 && (!*l || *l2) && i.len() == i2.len()
 				&& i.iter().zip(i2).all(|(p, q)| p.text == q.text && p.frame == q.frame && (!p.label || q.label))
 				&& evs_match(e, e2),
@@ -165,7 +166,14 @@ fn first_diff(got: &[Ev], want: &[Ev]) -> String {
 	}
 	format!("received {} events, the projection of the full read has {}", got.len(), want.len())
 }
-fn short(e: &Ev) -> String { let mut s = format!("{e:?}"); if s.len() > 300 { s.truncate(300); s.push('…'); } s }
+/// `s[lo..hi]` with both ends moved down to character boundaries (the texts hold non-ASCII names)
+fn clip(s: &str, lo: usize, hi: usize) -> &str {
+	let (mut lo, mut hi) = (lo.min(s.len()), hi.min(s.len()));
+	while !s.is_char_boundary(lo) { lo -= 1; }
+	while !s.is_char_boundary(hi) { hi -= 1; }
+	&s[lo..hi.max(lo)]
+}
+fn short(e: &Ev) -> String { let s = format!("{e:?}"); if s.len() > 300 { format!("{}…", clip(&s, 0, 300)) } else { s } }
 
 // ---------------------------------------------------------------- Gallina printing (compact, see coq/C17/Run.v)
 const KNOWN_NAMES: [&str; 18] = ["AnnotationDefault", "ConstantValue", "EnclosingMethod", "Exceptions", "InnerClasses", "MethodParameters", "Module",
@@ -189,7 +197,43 @@ fn g_words(b: &[u8]) -> String {
 	let ws: Vec<String> = b.chunks(7).map(|c| c.iter().fold(0u64, |acc, &x| (acc << 8) | x as u64).to_string()).collect();
 	format!("([{}])%uint63", ws.join(";"))
 }
-fn g_ev(e: &Ev) -> String {
+/// per method of a class: the bytecode offset of every instruction and the code length (None: no Code attribute / not decodable)
+type MethodPcs = Option<(Vec<u32>, u32)>;
+fn pcs_of(class_bytes: &[u8]) -> Vec<MethodPcs> {
+	let Ok(c) = fbh::classfile::raw::parse(class_bytes) else { return vec![] };
+	c.methods.iter().map(|m| m.attributes.iter().find_map(|a| match &a.info {
+		fbh::classfile::raw::AttrInfo::Code(code) => fbh::classfile::raw::decode_code(&code.code).ok().map(|v| (v.iter().map(|(pc, _)| *pc).collect(), code.code.len() as u32)),
+		_ => None,
+	})).collect()
+}
+fn pc_of(p: &Pos, pcs: &MethodPcs) -> Option<u64> {
+	let (at, len) = pcs.as_ref()?;
+	match p { Pos::At(i) => at.get(*i).map(|x| *x as u64), Pos::End => Some(*len as u64), Pos::Unknown => None }
+}
+/// the rows of a table as primitive integers (decoded in coq/C17/Run.v): LineNumberTable start_pc<<16 | line;
+/// local variables two words, kind<<48 | start_pc<<32 | length<<16 | index and cksum(name)<<31 | cksum(descriptor / signature);
+/// exception table start_pc<<33 | end_pc<<17 | handler_pc<<1 | (1 if there is a catch type).  None when a label cannot be
+/// placed (the table is then not compared with the model's rows).
+fn g_rows(rows: &[RowN], pcs: &MethodPcs) -> String {
+	let mut ws: Vec<u64> = vec![];
+	for r in rows {
+		let ok = (|| match r {
+			RowN::Line(p, n) => { ws.push(pc_of(p, pcs)? << 16 | *n as u64); Some(()) }
+			RowN::Var { kind, start, end, name, desc, index } => {
+				let (a, b) = (pc_of(start, pcs)?, pc_of(end, pcs)?);
+				if b < a { return None; }
+				ws.push((*kind as u64) << 48 | a << 32 | (b - a) << 16 | *index as u64);
+				ws.push(*name << 31 | *desc);
+				Some(())
+			}
+			RowN::Exc(a, b, h, c) => { ws.push(pc_of(a, pcs)? << 33 | pc_of(b, pcs)? << 17 | pc_of(h, pcs)? << 1 | *c as u64); Some(()) }
+		})();
+		if ok.is_none() { return "None".into(); }
+	}
+	format!("(Some ([{}])%uint63)", ws.iter().map(|w| w.to_string()).collect::<Vec<_>>().join(";"))
+}
+/// `pcs`: the methods of the class the trace belongs to; `cur`: the method the events belong to (None at class / field level)
+fn g_ev(e: &Ev, cur: &MethodPcs) -> String {
 	match e {
 		Ev::Attr { name, raw: None, .. } => match KNOWN_NAMES.iter().position(|n| n == name) {
 			Some(i) => format!("K {i}"),
@@ -197,21 +241,30 @@ fn g_ev(e: &Ev) -> String {
 		},
 		Ev::Attr { name, raw: Some(raw), .. } => format!("U {} {}", gstr(&cps_str(name)), g_bytes(raw)),
 		Ev::Flags(d, s) => format!("Fl {} {}", gbool(*d), gbool(*s)),
-		Ev::Deferred { slot, .. } => format!("Df {}", DEFERRED_SLOTS.iter().position(|s| s == slot).unwrap_or(99)),
+		Ev::Deferred { slot, items, rows, .. } => format!("Df {} {}", DEFERRED_SLOTS.iter().position(|s| s == slot).unwrap_or(99),
+			if rows.len() == items.len() { g_rows(rows, cur) } else { "None".into() }),
 		Ev::CodeDeclined => "CD".into(),
-		Ev::Code { max_stack, max_locals, insns, es, .. } =>
-			format!("C {max_stack} {max_locals} {} {}", gbool(insns.iter().any(|i| i.frame.is_some())), g_evs(es)),
-		Ev::Rc { es, .. } => format!("R {}", gopt(es.as_ref().map(|e| g_evs(e)))),
-		Ev::Field { es, .. } => format!("Fd {}", gopt(es.as_ref().map(|e| g_evs(e)))),
-		Ev::Method { es, .. } => format!("M {}", gopt(es.as_ref().map(|e| g_evs(e)))),
+		Ev::Code { max_stack, max_locals, insns, exc_rows, es, .. } =>
+			format!("C {max_stack} {max_locals} {} {} {}", gbool(insns.iter().any(|i| i.frame.is_some())), g_rows(exc_rows, cur), g_evs(es, cur)),
+		Ev::Rc { es, .. } => format!("R {}", gopt(es.as_ref().map(|e| g_evs(e, &None)))),
+		Ev::Field { es, .. } => format!("Fd {}", gopt(es.as_ref().map(|e| g_evs(e, &None)))),
+		Ev::Method { es, .. } => format!("M {}", gopt(es.as_ref().map(|e| g_evs(e, cur)))),
 	}
 }
-fn g_evs(es: &[Ev]) -> String { glist(es.iter().map(g_ev)) }
-fn g_answer(a: &[ReadAns]) -> String {
-	glist(a.iter().map(|r| match r { Ok((t, pos)) => format!("Ok ({}, {pos})", gopt(t.as_ref().map(|e| g_evs(e)))), Err(_) => "Err".into() }))
+fn g_evs(es: &[Ev], cur: &MethodPcs) -> String { glist(es.iter().map(|e| g_ev(e, cur))) }
+/// the events of one class: the k-th Method event belongs to the k-th method of the class file
+fn g_trace(es: &[Ev], pcs: &[MethodPcs]) -> String {
+	let mut k = 0usize;
+	glist(es.iter().map(|e| match e {
+		Ev::Method { .. } => { let cur = pcs.get(k).cloned().unwrap_or(None); k += 1; g_ev(e, &cur) }
+		e => g_ev(e, &None),
+	}))
 }
-fn g_case(stream: &[u8], runs: &[(Vec<VDesc>, Vec<ReadAns>)]) -> String {
-	format!("CStream {} {} {}", stream.len(), g_words(stream), glist(runs.iter().map(|(d, a)| gpair(glist(d.iter().map(g_desc)), g_answer(a)))))
+fn g_answer(a: &[ReadAns], pcs: &[Vec<MethodPcs>]) -> String {
+	glist(a.iter().enumerate().map(|(i, r)| match r { Ok((t, pos)) => format!("Ok ({}, {pos})", gopt(t.as_ref().map(|e| g_trace(e, pcs.get(i).map(|v| v.as_slice()).unwrap_or(&[]))))), Err(_) => "Err".into() }))
+}
+fn g_case(stream: &[u8], pcs: &[Vec<MethodPcs>], runs: &[(Vec<VDesc>, Vec<ReadAns>)]) -> String {
+	format!("CStream {} {} {}", stream.len(), g_words(stream), glist(runs.iter().map(|(d, a)| gpair(glist(d.iter().map(g_desc)), g_answer(a, pcs)))))
 }
 
 // ---------------------------------------------------------------- inputs
@@ -289,6 +342,30 @@ fn configs(rng: &mut Rng, counts: (usize, usize, usize), thorough: bool, r: &mut
 			if nr > 0 { push("decline-kth-rc", VDesc { rcs: pick(nr), ..full.clone() }, &mut out); }
 		}
 	}
+	// interests() is a per-instance method: neighbouring members of ONE class get different masks / answers
+	// (the reader must consult the interests of the visitor at hand, not those of an earlier member)
+	if nm >= 2 {
+		let all_but = |all: &[&'static str], f: &str| all.iter().copied().filter(|x| *x != f).collect::<Mask>();
+		let mut mpairs: Vec<(Mask, Mask)> = vec![(METHOD_FLAGS.to_vec(), vec![]), (vec![], METHOD_FLAGS.to_vec()), (vec!["code"], all_but(&METHOD_FLAGS, "code")), (all_but(&METHOD_FLAGS, "code"), vec!["code"])];
+		let mut cpairs: Vec<(Mask, Mask)> = vec![(CODE_FLAGS.to_vec(), vec![]), (vec![], CODE_FLAGS.to_vec()), (vec!["local_variable_table"], vec!["local_variable_type_table"]), (vec!["line_number_table", "local_variable_type_table"], vec!["stack_map_table", "local_variable_table"])];
+		for _ in 0..(if thorough { 3 } else { 1 }) {
+			let f = *rng.pick(&METHOD_FLAGS); let g = *rng.pick(&METHOD_FLAGS);
+			mpairs.push((vec![f], vec![g])); mpairs.push((all_but(&METHOD_FLAGS, f), vec![f]));
+			let f = *rng.pick(&CODE_FLAGS); let g = *rng.pick(&CODE_FLAGS);
+			cpairs.push((vec![f], vec![g])); cpairs.push((all_but(&CODE_FLAGS, f), vec![f]));
+		}
+		let alt = |a: &Mask, b: &Mask, period: usize| (0..nm).map(|i| Some(if (i / period) % 2 == 0 { a.clone() } else { b.clone() })).collect::<Vec<_>>();
+		for (a, b) in &mpairs { push("alternating-method-masks", VDesc { methods: alt(a, b, 1), ..full.clone() }, &mut out); }
+		for (a, b) in &cpairs { push("alternating-code-masks", VDesc { codes: alt(a, b, 1), ..full.clone() }, &mut out); }
+		// both levels at once, period 2 against period 1; a third of the methods declined in between
+		let (a, b) = &mpairs[rng.below(mpairs.len())]; let (c, d) = &cpairs[rng.below(cpairs.len())];
+		let mut ms = alt(a, b, 2); for (i, m) in ms.iter_mut().enumerate() { if i % 3 == 2 { *m = None; } }
+		push("alternating-both-levels", VDesc { methods: ms, codes: alt(c, d, 1), ..full.clone() }, &mut out);
+	}
+	if nf >= 2 || nr >= 2 {
+		// fields / record components: the public API only lets a visitor accept or decline them (their visitor traits are crate-private)
+		for o in 0..2 { push("alternating-field-rc-accept", VDesc { fields: (0..nf).map(|i| i % 2 == o).collect(), rcs: (0..nr).map(|i| i % 2 != o).collect(), ..full.clone() }, &mut out); }
+	}
 	// random masks and random decline choices, per member
 	for _ in 0..(if thorough { 40 } else { 10 }) {
 		let d = VDesc {
@@ -347,7 +424,7 @@ fn compare_replay(got: &Option<Vec<Ev>>, read: &Option<Vec<Ev>>) -> ReplayCmp {
 		if x == y && ((a && (dx.0 || dy.0)) || (b && (dx.1 || dy.1))) { return ReplayCmp::Known(a, b); }
 	}
 	let (x, y) = (view(got, false, false).0.unwrap_or_default(), view(read, false, false).0.unwrap_or_default());
-	let diff = x.iter().zip(&y).find(|(p, q)| p != q).map(|(p, q)| { let k = p.bytes().zip(q.bytes()).take_while(|(u, w)| u == w).count().saturating_sub(60); format!("replay: …{}\nread:   …{}", &p[k.min(p.len())..p.len().min(k + 400)], &q[k.min(q.len())..q.len().min(k + 400)]) }).unwrap_or_else(|| format!("{} vs {} events", x.len(), y.len()));
+	let diff = x.iter().zip(&y).find(|(p, q)| p != q).map(|(p, q)| { let k = p.bytes().zip(q.bytes()).take_while(|(u, w)| u == w).count().saturating_sub(60); format!("replay: …{}\nread:   …{}", clip(p, k, k + 400), clip(q, k, k + 400)) }).unwrap_or_else(|| format!("{} vs {} events", x.len(), y.len()));
 	ReplayCmp::Differ(diff)
 }
 
@@ -407,11 +484,40 @@ fn rebuild_check(r: &mut Report, cb: &ClassBytes, tree: &ClassFile) -> bool {
 		// compared through {:?}: PartialEq is not reflexive on trees holding NaN float constants
 		Ok(Ok(v)) if v.len() == 1 && (v[0] == *tree || format!("{:?}", v[0]) == format!("{tree:?}")) => true,
 		other => {
-			let what = match other { Ok(Ok(v)) => format!("ClassFile::accept into Vec<ClassFile> gave {} class(es) that differ from the class read from the bytes", v.len()), Ok(Err(e)) => format!("ClassFile::accept failed: {e:#}"), Err(p) => format!("ClassFile::accept panicked: {p}") };
-			r.violation(what.clone(), format!("property C17 (replay)\nwhat: {what}\nclass file: {}\nbytes (hex): {}\n", cb.name, hex(&cb.bytes)));
+			let mut where_ = String::new();
+			let what = match other {
+				Ok(Ok(v)) => {
+					if v.len() == 1 { where_ = format!("first difference: {}\n", tree_diff(&v[0], tree)); }
+					format!("ClassFile::accept into Vec<ClassFile> gave {} class(es) that differ from the class read from the bytes", v.len())
+				}
+				Ok(Err(e)) => format!("ClassFile::accept failed: {e:#}"), Err(p) => format!("ClassFile::accept panicked: {p}") };
+			r.violation(what.clone(), format!("property C17 (replay)\nwhat: {what}\n{where_}class file: {}\nbytes (hex): {}\n", cb.name, hex(&cb.bytes)));
 			false
 		}
 	}
+}
+
+/// where two trees differ: the member, and the debug text around the first differing character
+fn tree_diff(replayed: &ClassFile, read: &ClassFile) -> String {
+	let ctx = |a: &str, b: &str| {
+		let k = a.bytes().zip(b.bytes()).take_while(|(x, y)| x == y).count();
+		format!("\n  replayed: …{}…\n  read:     …{}…", clip(a, k.saturating_sub(160), k + 240), clip(b, k.saturating_sub(160), k + 240))
+	};
+	for (i, (a, b)) in replayed.methods.iter().zip(&read.methods).enumerate() {
+		let (x, y) = (format!("{a:?}"), format!("{b:?}"));
+		if x != y {
+			if let (Some(ca), Some(cb)) = (&a.code, &b.code) {
+				if ca.local_variables != cb.local_variables { return format!("method {i} ({:?} {:?}): Code.local_variables (rows of LocalVariableTable / LocalVariableTypeTable in the order delivered){}", b.name, b.descriptor, ctx(&format!("{:?}", ca.local_variables), &format!("{:?}", cb.local_variables))); }
+				if ca.line_numbers != cb.line_numbers { return format!("method {i} ({:?} {:?}): Code.line_numbers{}", b.name, b.descriptor, ctx(&format!("{:?}", ca.line_numbers), &format!("{:?}", cb.line_numbers))); }
+			}
+			return format!("method {i} ({:?} {:?}){}", b.name, b.descriptor, ctx(&x, &y));
+		}
+	}
+	for (i, (a, b)) in replayed.fields.iter().zip(&read.fields).enumerate() {
+		let (x, y) = (format!("{a:?}"), format!("{b:?}"));
+		if x != y { return format!("field {i} ({:?}){}", b.name, ctx(&x, &y)); }
+	}
+	ctx(&format!("{replayed:?}"), &format!("{read:?}"))
 }
 
 /// an in-memory class that no reader produces: a Code with only one of max_stack / max_locals.  The visitor API has one
@@ -447,9 +553,99 @@ fn report_known_c(r: &mut Report, cb_name: &str) {
 	}
 }
 
-fn g_replay_case(stream: &[u8], tree_ok: bool, rebuilt: bool, runs: &[(VDesc, Option<Vec<Ev>>)]) -> String {
+fn g_replay_case(stream: &[u8], pcs: &[MethodPcs], tree_ok: bool, rebuilt: bool, runs: &[(VDesc, Option<Vec<Ev>>)]) -> String {
 	format!("CReplay {} {} {} {} {}", stream.len(), g_words(stream), gbool(tree_ok), gbool(rebuilt),
-		glist(runs.iter().map(|(d, t)| gpair(g_desc(d), gopt(t.as_ref().map(|e| g_evs(e)))))))
+		glist(runs.iter().map(|(d, t)| gpair(g_desc(d), gopt(t.as_ref().map(|e| g_trace(e, pcs)))))))
+}
+
+// ---------------------------------------------------------------- duke's ready-made visitors: (), SimpleClassVisitor, Infallible
+/// what a Code event looks like to a visitor that ignores instructions, annotations and unknown attributes
+fn lite_view(e: &Ev) -> Option<Ev> {
+	let Ev::Code { max_stack, max_locals, exc, es, .. } = e else { return None };
+	Some(Ev::Code { max_stack: *max_stack, max_locals: *max_locals, insns: vec![], last_label: false, exc: strip_labels(exc), exc_rows: vec![],
+		es: es.iter().filter_map(|e| match e { Ev::Deferred { slot, items, optional, .. } => Some(Ev::Deferred { slot, items: items.iter().map(|(k, t)| (*k, strip_labels(t))).collect(), optional: *optional, rows: vec![] }), _ => None }).collect() })
+}
+
+/// The same stream through `()` (every interest, everything voided), through a `SimpleClassVisitor` (interests = fields + methods;
+/// fields by duke's tree builder, methods by the recording visitor with the masks of `descs`) and through the leanest visitor
+/// (fields `Infallible`, annotations / unknown attributes into `()`, default `visit_instruction`): each read must succeed, end at
+/// the end of its class file and deliver the projection of the full read.
+fn ready_made(r: &mut Report, stream: &[u8], ends: &[u64], full_traces: &[Option<Vec<Ev>>], descs: &[VDesc], unit_too: bool, head: &dyn Fn(&str) -> String) {
+	let cfg_text = descs.iter().map(describe).collect::<Vec<_>>().join("\n  ");
+	let mut fail = |r: &mut Report, which: &str, what: String| { let what = format!("[{which}] {what}"); r.violation(what.clone(), format!("{}what: {what}\n", head(&cfg_text))); };
+	if unit_too {
+		let mut cur = Cursor::new(stream);
+		for (i, end) in ends.iter().enumerate() {
+			r.count("ready_made:unit_reads");
+			match guarded(AssertUnwindSafe(|| duke::read_class_multi(&mut cur, ()))) {
+				Ok(Ok(())) => if cur.position() != *end { fail(r, "visitor ()", format!("read {i} ended at stream position {}, the class file ends at {end}", cur.position())); break; },
+				Ok(Err(e)) => { fail(r, "visitor ()", format!("read {i} fails ({e:#}) although the full read of the same class succeeds")); break; }
+				Err(p) => { fail(r, "visitor ()", format!("read {i} panicked: {p}")); break; }
+			}
+		}
+	}
+	// SimpleClassVisitor
+	let mut cur = Cursor::new(stream);
+	for (i, d) in descs.iter().enumerate() {
+		r.count("ready_made:simple_reads");
+		let got = match guarded(AssertUnwindSafe(|| duke::read_class_multi(&mut cur, SimpleMulti { desc: d.clone(), result: None }))) {
+			Ok(Ok(m)) => m.result,
+			Ok(Err(e)) => { fail(r, "SimpleClassVisitor", format!("read {i} fails ({e:#}) although the full read of the same class succeeds")); break; }
+			Err(p) => { fail(r, "SimpleClassVisitor", format!("read {i} panicked: {p}")); break; }
+		};
+		if cur.position() != ends[i] { fail(r, "SimpleClassVisitor", format!("read {i} ended at stream position {}, the class file ends at {}", cur.position(), ends[i])); break; }
+		let want: Vec<Ev> = project_class(&full_traces[i], &VDesc { accept: true, class: vec!["fields", "methods"], ..d.clone() }).unwrap_or_default()
+			.into_iter().filter(|e| matches!(e, Ev::Field { .. } | Ev::Method { .. })).collect();
+		match got {
+			Some(got) if evs_match(&got, &want) => {}
+			Some(got) => fail(r, "SimpleClassVisitor", format!("read {i}: did not receive the projection of the full read: {}", first_diff(&got, &want))),
+			None => fail(r, "SimpleClassVisitor", format!("read {i}: finish_class was not called")),
+		}
+	}
+	// the leanest visitor
+	let mut cur = Cursor::new(stream);
+	for (i, d) in descs.iter().enumerate() {
+		r.count("ready_made:lean_reads");
+		let got = match guarded(AssertUnwindSafe(|| duke::read_class_multi(&mut cur, LiteMulti { desc: d.clone(), result: None }))) {
+			Ok(Ok(m)) => m.result,
+			Ok(Err(e)) => { fail(r, "lean visitor", format!("read {i} fails ({e:#}) although the full read of the same class succeeds")); break; }
+			Err(p) => { fail(r, "lean visitor", format!("read {i} panicked: {p}")); break; }
+		};
+		if cur.position() != ends[i] { fail(r, "lean visitor", format!("read {i} ended at stream position {}, the class file ends at {}", cur.position(), ends[i])); break; }
+		let mut want: Vec<Option<Vec<Ev>>> = vec![];
+		for (k, e) in full_traces[i].iter().flatten().filter(|e| matches!(e, Ev::Method { .. })).enumerate() {
+			let Ev::Method { es, .. } = e else { unreachable!() };
+			want.push(match (d.method(k), es) { (Some(mm), Some(es)) => Some(project_method(es, &mm, &d.code(k)).iter().filter_map(lite_view).collect()), _ => None });
+		}
+		let got = got.unwrap_or_default();
+		if got.len() != want.len() { fail(r, "lean visitor", format!("read {i}: {} methods visited, the full read reports {}", got.len(), want.len())); continue; }
+		for (k, (g, w)) in got.iter().zip(&want).enumerate() {
+			let ok = match (g, w) { (Some(a), Some(b)) => evs_match(a, b), (None, None) => true, _ => false };
+			if !ok { fail(r, "lean visitor", format!("read {i}, method {k}: max_stack / max_locals / exception table / line numbers / local variables differ from the projection of the full read: received {} but the full read reports {}", short_list(g), short_list(w))); break; }
+		}
+	}
+}
+fn short_list(e: &Option<Vec<Ev>>) -> String { let s = format!("{e:?}"); if s.len() > 400 { format!("{}…", clip(&s, 0, 400)) } else { s } }
+
+/// replaying the tree into duke's ready-made visitors: `()` must succeed, a SimpleClassVisitor sees what it sees when reading
+fn ready_made_replay(r: &mut Report, cb: &ClassBytes, shape: &Option<edge::Shape>, tree: &ClassFile, d: &VDesc) {
+	r.count("ready_made:replays");
+	match guarded(AssertUnwindSafe(|| tree.clone().accept(()))) {
+		Ok(Ok(())) => {}
+		other => { let what = format!("ClassFile::accept into the visitor () {}", match other { Ok(Err(e)) => format!("failed: {e:#}"), _ => "panicked".into() }); r.violation(what.clone(), format!("property C17 (replay)\nwhat: {what}\nclass file: {}\nbytes (hex): {}\n", cb.name, hex(&cb.bytes))); }
+	}
+	// an at-most-once attribute twice in one item: the tree merges / overwrites (outside the hypothesis of the replay clause)
+	if shape.as_ref().map(|s| s.duplicate_merged).unwrap_or(false) { return; }
+	let read = guarded(AssertUnwindSafe(|| duke::read_class_multi(&mut Cursor::new(&cb.bytes), SimpleMulti { desc: d.clone(), result: None })));
+	let replayed = guarded(AssertUnwindSafe(|| tree.clone().accept(SimpleMulti { desc: d.clone(), result: None })));
+	match (read, replayed) {
+		(Ok(Ok(a)), Ok(Ok(b))) => if let ReplayCmp::Differ(diff) = compare_replay(&b.result, &a.result) {
+			let what = "ClassFile::accept delivers other events to a SimpleClassVisitor than reading the bytes does".to_owned();
+			r.violation(what.clone(), format!("property C17 (replay)\nwhat: {what}\nclass file: {}\nvisitor: {d:?}\nfirst difference:\n{diff}\nbytes (hex): {}\n", cb.name, hex(&cb.bytes)));
+		},
+		(Ok(Ok(_)), other) => { let what = format!("ClassFile::accept into a SimpleClassVisitor {}", match other { Ok(Err(e)) => format!("failed: {e:#}"), _ => "panicked".into() }); r.violation(what.clone(), format!("property C17 (replay)\nwhat: {what}\nclass file: {}\nvisitor: {d:?}\nbytes (hex): {}\n", cb.name, hex(&cb.bytes))); }
+		_ => {} // the read itself is judged by `ready_made`
+	}
 }
 
 // ---------------------------------------------------------------- one stream
@@ -459,6 +655,9 @@ fn do_stream(r: &mut Report, rng: &mut Rng, ctx: &Ctx, parts: &[&ClassBytes], st
 	let names: Vec<&str> = parts.iter().map(|p| p.name.as_str()).collect();
 	let replay_head = |cfg: &str| format!("property C17\nstream: {} class file(s) concatenated: {:?}\nstream bytes (hex): {}\nvisitor configuration per read: {cfg}\n", parts.len(), names, hex(&stream));
 
+	// the reader / accept() recurse over user-supplied nesting (element values, type paths) and loop over declared counts:
+	// a death that `guarded` cannot catch (stack overflow, abort, endless loop) is then reported with this input
+	crumb(&replay_head("(the harness process died while reading / replaying this stream; configurations: full, then masks and decline choices)"));
 	// reference: full accepting visitors
 	let fulls: Vec<VDesc> = parts.iter().map(|_| VDesc::full()).collect();
 	let full_ans = run_config(&stream, &fulls);
@@ -468,7 +667,7 @@ fn do_stream(r: &mut Report, rng: &mut Rng, ctx: &Ctx, parts: &[&ClassBytes], st
 	if full_ans.len() != parts.len() || full_ans.iter().any(|a| a.is_err()) {
 		// a class duke cannot read with the full visitor is outside the property (C01/C16 own that)
 		r.count("stream_not_fully_readable");
-		if let Some(Err(e)) = full_ans.iter().find(|a| a.is_err()) { r.notes.push(format!("not readable by duke with the full visitor: {:?}: {}", names, &e[..e.len().min(300)])); }
+		if let Some(Err(e)) = full_ans.iter().find(|a| a.is_err()) { r.notes.push(format!("not readable by duke with the full visitor: {:?}: {}", names, clip(e, 0, 300))); }
 		// no correspondence case: the model does not parse attribute contents, where these failures come from
 		let _ = &mut runs;
 		return;
@@ -526,28 +725,35 @@ fn do_stream(r: &mut Report, rng: &mut Rng, ctx: &Ctx, parts: &[&ClassBytes], st
 				}
 			}
 		}
-		let to_model = ctx.thorough || (j + stream_no) % 4 == 0;
+		let to_model = if ctx.thorough { (j + stream_no) % 3 != 0 } else { (j + stream_no) % 5 == 0 };
+		if (j + stream_no) % 6 == 1 || kind.starts_with("alternating") {
+			ready_made(r, &stream, &ends, &full_traces, &descs, j < 6, &replay_head);
+			if let Some(tree) = &tree { ready_made_replay(r, parts[0], &shape, tree, &descs[0]); }
+		}
 		if parts.len() == 1 {
 			if let (Some(tree), Some(Ok((t, _)))) = (&tree, ans.first()) {
 				if let Some(got) = replay_masked(r, parts[0], &shape, tree, &kind, &descs[0], t) { if to_model && (!ctx.thorough || j % 2 == 0) { replay_runs.push((descs[0].clone(), got)); } }
 			}
 		}
-		// every configuration goes through the oracle; the Coq model gets all of them in the thorough tier
-		// and a rotating quarter of them in the quick tier (the case files are the expensive part)
+		// every configuration goes through the oracle; the Coq model gets two thirds of them (rotating) in the thorough tier
+		// and a rotating fifth of them in the quick tier (the case files are the expensive part)
 		if to_model { r.count("configs_to_model"); runs.push((descs, ans)); }
 	}
-	r.case(stream_kind, g_case(&stream, &runs));
+	let pcs: Vec<Vec<MethodPcs>> = parts.iter().map(|p| pcs_of(&p.bytes)).collect();
+	r.case(stream_kind, g_case(&stream, &pcs, &runs));
 	if parts.len() == 1 {
 		r.count_n("replay_configs_to_model", replay_runs.len() as u64);
-		r.case(&format!("replay-{stream_kind}"), g_replay_case(&stream, tree.is_some(), rebuilt, &replay_runs));
+		r.case(&format!("replay-{stream_kind}"), g_replay_case(&stream, &pcs[0], tree.is_some(), rebuilt, &replay_runs));
 	}
 }
 
 pub fn run(ctx: &Ctx) -> anyhow::Result<Report> {
 	let mut r = Report::new("C17", "C17.Run");
+	// debugging aid: C17_PANIC_TRACE=1 prints where a panic was raised (panics of the implementation are results, not output)
+	if std::env::var_os("C17_PANIC_TRACE").is_some() { std::panic::set_hook(Box::new(|i| eprintln!("panic: {i}"))); }
 	let mut rng = Rng::new(ctx.seed);
 	r.shard_size = 16;
-	r.rule = "streams = class files alone and random concatenations of 2..4 of them read by successive read_class_multi calls on one cursor. Class files: corpus/C17 (javac 17, --release 8 and 17, with/without -g -parameters: records, sealed classes, annotations of every element kind, type annotations, lambdas, switches, module-info), the shared corpus/classes (javac r8/r11/r17, 260 third-party and JDK classes, crafted classes with unknown attributes at every level, Synthetic, SourceDebugExtension, predefined names at foreign locations; quick tier: every third file of the javac/JDK sample), /repo's fixtures, and classes freshly generated from the seed by fbh::classfile::gen with shuffled attribute order. Per stream: full visitor, class declined, no interests, every single-bit (thorough: and all-but-one) class / method / code interest mask, decline every k-th (k=1..3) field / method / visit_code / record component, random per-member masks and decline choices. One evaluation = one (stream, configuration) run through the real reader with the projection, position and masked-replay oracles; one correspondence case = one stream with its configurations (quick: a rotating quarter of them) through the Coq model, which also checks that the stream decodes to well-formed class structures (the hypothesis of the theorems). Replay: for every single-class stream the tree of duke::read_class is replayed (ClassFile::accept) into the tree builder (must give an equal tree), into the full recording visitor and into every configuration's recording visitor; oracle = the replayed trace equals the trace of reading the bytes with the same visitor (attribute-level events of one item as a multiset, members and instructions in order, contents by debug text), with the two known classes F20a (annotations attribute without annotations) and F20b (LocalVariable(Type)Table without rows) recognised by a relaxed comparison PLUS the class file actually containing such an attribute, and classes with a duplicated merged attribute counted as outside the hypothesis; one `replay-*` correspondence case per class = the recorded accept traces (quick: a rotating quarter of the configurations) against the Coq model of accept() in accept()'s own order, model tree builder succeeds iff duke's does, rebuilt tree equal. Edge inputs (stream kind `edge`): edits of generated classes and of corpus/C17 through fbh::classfile::raw — present-but-empty annotation lists at every level, empty InnerClasses / NestMembers / PermittedSubclasses / Record / Exceptions / MethodParameters, LineNumberTable / LocalVariableTable / LocalVariableTypeTable / StackMapTable without rows (alone and next to tables with rows), flags-only Deprecated / Synthetic, Signature at every level, an annotations attribute twice in one item; corpus/C17/replay/*.class are the witnesses of the Coq refutation theorems byte for byte. Non-trivial = duke reads every class of the stream with the full visitor; distinct by stream bytes.".into();
+	r.rule = "streams = class files alone and random concatenations of 2..4 of them read by successive read_class_multi calls on one cursor. Class files: corpus/C17 (javac 17, --release 8 and 17, with/without -g -parameters: records, sealed classes, annotations of every element kind, type annotations, lambdas, switches, module-info), the shared corpus/classes (javac r8/r11/r17, 260 third-party and JDK classes, crafted classes with unknown attributes at every level, Synthetic, SourceDebugExtension, predefined names at foreign locations; quick tier: every third file of the javac/JDK sample), /repo's fixtures, and classes freshly generated from the seed by fbh::classfile::gen with shuffled attribute order. Per stream: full visitor, class declined, no interests, every single-bit (thorough: and all-but-one) class / method / code interest mask, decline every k-th (k=1..3) field / method / visit_code / record component, per-member ALTERNATING masks (neighbouring methods / visit_code answers of one class get different interests: all|none, code|all-but-code, single bits, period 1 and 2, with every third method declined; fields / record components alternately accepted), random per-member masks and decline choices. A rotating sixth of the configurations (and every alternating one) additionally through duke's ready-made visitors: `()` (position), a SimpleClassVisitor (interests fields + methods; projection oracle), the leanest visitor (fields Infallible, annotations / unknown attributes into (), default visit_instruction; max_stack / max_locals / exception table / line numbers / local variables against the projection), and ClassFile::accept into () and into the SimpleClassVisitor. One evaluation = one (stream, configuration) run through the real reader with the projection, position and masked-replay oracles; one correspondence case = one stream with its configurations (quick: a rotating fifth of them, thorough: two thirds) through the Coq model — event trace, stream positions, and the ROWS of every line-number / local-variable table and exception table handed to a code visitor (labels as bytecode offsets, names / descriptors / signatures by checksum against the pool entry the model's row designates; same rows, same order) — which also checks that the stream decodes to well-formed class structures (the hypothesis of the theorems). Replay: for every single-class stream the tree of duke::read_class is replayed (ClassFile::accept) into the tree builder (must give an equal tree), into the full recording visitor and into every configuration's recording visitor; oracle = the replayed trace equals the trace of reading the bytes with the same visitor (attribute-level events of one item as a multiset, members and instructions in order, contents by debug text), with the two known classes F20a (annotations attribute without annotations) and F20b (LocalVariable(Type)Table without rows) recognised by a relaxed comparison PLUS the class file actually containing such an attribute, and classes with a duplicated merged attribute counted as outside the hypothesis; one `replay-*` correspondence case per class = the recorded accept traces (quick: a rotating fifth of the configurations) against the Coq model of accept() in accept()'s own order, model tree builder succeeds iff duke's does, rebuilt tree equal. Edge inputs (stream kind `edge`): edits of generated classes and of corpus/C17 through fbh::classfile::raw — present-but-empty annotation lists at every level, empty InnerClasses / NestMembers / PermittedSubclasses / Record / Exceptions / MethodParameters, LineNumberTable / LocalVariableTable / LocalVariableTypeTable / StackMapTable without rows (alone and next to tables with rows), flags-only Deprecated / Synthetic, Signature at every level, an annotations attribute twice in one item, the ROWS of a Code's LocalVariableTable / LocalVariableTypeTable / LineNumberTable redistributed over several attributes in other orders (type table before table, one attribute per row shuffled, halves alternating, a type table between two tables; a type table synthesised where the class has none), a CLDC `StackMap` attribute with 0..3 entries in ascending / descending / mixed offset order; corpus/C17/replay/*.class are the witnesses of the Coq refutation theorems byte for byte. Non-trivial = duke reads every class of the stream with the full visitor; distinct by stream bytes.".into();
 
 	let mut classes = load_classes(&mut r);
 	if classes.is_empty() { anyhow::bail!("no class files found"); }
